@@ -120,13 +120,20 @@ class HistGen:
             self.op_store(self.new_event(kind=k))
             return
         o = r.choice(olds)
-        rel = r.choice(["older", "newer", "equal", "neighbour-d", "neighbour-author", "neighbour-kind"])
+        rel = r.choice(["older", "newer", "equal", "neighbour-d", "neighbour-author", "neighbour-kind", "second-d"])
+        if o["kind"] in PKINDS and r.random() < 0.25:
+            rel = "second-d"
         created = {"older": max(0, o["created"] - r.choice([1, 100])), "newer": min(C.U64, o["created"] + r.choice([1, 100])),
                    "equal": o["created"]}.get(rel, self.rtime())
         tags = [list(t) for t in o["tags"]]
         pk, kind = o["pk"], o["kind"]
         if rel == "neighbour-d" and kind in PKINDS:
             tags = [[b"d", r.choice(DVALS)]]
+        elif rel == "second-d" and kind in PKINDS:
+            # another address of the same (author, kind) that ALSO carries the old event's d value as a later d tag:
+            # it matches a #d filter for that value without being at that address
+            od = [t[1] for t in o["tags"] if len(t) >= 2 and t[0] == b"d"][:1] or [r.choice(DVALS)]
+            tags = [[b"d", r.choice([d for d in DVALS if d != od[0]] or DVALS)], [b"d", od[0]]] + [list(t) for t in o["tags"] if t[:1] != [b"d"]][:1]
         elif rel == "neighbour-author":
             pk = r.choice(AUTHORS)
         elif rel == "neighbour-kind":
@@ -198,10 +205,13 @@ class HistGen:
         r = self.r
         target = r.choice(AUTHORS)
         hx = target.hex().encode()
-        shape = r.choice(["first", "second-tag", "later-value", "upper", "other-kind", "none"])
+        shape = r.choice(["first", "second-tag", "later-value", "upper", "other-kind", "none", "nul-suffix", "nul-suffix2", "long-suffix"])
         tags = {"first": [[b"p", hx]], "second-tag": [[b"p", r.choice(AUTHORS).hex().encode()], [b"p", hx]],
                 "later-value": [[b"p", b"zz", hx]], "upper": [[b"p", hx.upper()]], "other-kind": [[b"p", hx]],
-                "none": [[b"e", hx]]}[shape]
+                "none": [[b"e", hx]],
+                # values that only collide with hex(pk) after the index pads/cuts them to 182 bytes
+                "nul-suffix": [[b"p", hx + b"\x00"]], "nul-suffix2": [[b"p", hx + b"\x00" * 5]],
+                "long-suffix": [[b"p", hx + b"\x00" * 118 + b"tail"]]}[shape]
         kind = 1 if shape == "other-kind" else 1059
         self.op_store(self.new_event(kind=kind, tags=tags))
 
@@ -220,7 +230,23 @@ class HistGen:
         r = self.r
         f = {"ids": [], "authors": [], "kinds": [], "tags": [], "since": None, "until": None, "limit": None}
         base = r.choice(self.events) if self.events and r.random() < 0.85 else None
-        shape = r.choice(["ids", "authors", "ak", "at", "kt", "t", "scrape", "kinds", "mixed", "mixed", "akt", "akt"])
+        shape = r.choice(["ids", "authors", "ak", "at", "kt", "t", "scrape", "kinds", "mixed", "mixed", "akt", "akt", "akd"])
+        if shape == "akd":
+            # one author, one parameterized-replaceable kind, ONE d value carried by several of their events
+            # (as the address of one, as a later d tag of others): all of them qualify
+            groups = {}
+            for e in self.events:
+                if e["kind"] in PKINDS:
+                    for v in set(t[1] for t in e["tags"] if len(t) >= 2 and t[0] == b"d"):
+                        groups.setdefault((e["pk"], e["kind"], v), []).append(e)
+            multi = [k for k, v in groups.items() if len(v) >= 2] or list(groups)
+            if multi:
+                pk, kind, v = r.choice(multi)
+                f["authors"], f["kinds"], f["tags"] = [pk], [kind], [[b"d", v]]
+                f["limit"] = r.choice([None, None, 2, 3, 10])
+                self.ops.append(("query", f, [], 1, 100, 10 ** 6, self.now))
+                return
+            shape = "akt"
         if shape == "akt":
             # authors + kinds + tag constraint (served by the author-kind plan; the tag constraint only filters):
             # all events of one (author, kind), constrained by the tag values several of them carry
@@ -228,7 +254,8 @@ class HistGen:
             if pool:
                 base = r.choice(pool)
                 same = [e for e in self.events if e["pk"] == base["pk"] and e["kind"] == base["kind"]]
-                letter = r.choice([t[0] for t in base["tags"] if len(t) >= 2 and len(t[0]) == 1])
+                letters = [t[0] for t in base["tags"] if len(t) >= 2 and len(t[0]) == 1]
+                letter = b"d" if b"d" in letters and r.random() < 0.6 else r.choice(letters)
                 vals = []
                 for e in same:
                     for t in e["tags"]:
